@@ -136,3 +136,214 @@ Proof.
     destruct (Z.eqb l l') eqn:E; [|reflexivity]. apply Z.eqb_eq in E. subst. rewrite Hk. reflexivity.
   - unfold nonempty_buckets in B. rewrite Forall_forall in B. apply (B (l, b) H).
 Qed.
+
+(* ---------------------------------------------------------------- vectors of a table *)
+Lemma map_fst_combine {A B} (a : list A) (b : list B) : length a = length b -> map fst (combine a b) = a.
+Proof. revert b. induction a as [|x a IH]; intros [|y b] H; simpl in *; try discriminate; [reflexivity|]. f_equal. apply IH. lia. Qed.
+Lemma map_snd_combine {A B} (a : list A) (b : list B) : length a = length b -> map snd (combine a b) = b.
+Proof. revert b. induction a as [|x a IH]; intros [|y b] H; simpl in *; try discriminate; [reflexivity|]. f_equal. apply IH. lia. Qed.
+
+Lemma select_map {A B} (f : A -> B) m (l : list A) : map f (select m l) = select m (map f l).
+Proof.
+  revert l. induction m as [|b m IH]; intros [|x l]; simpl; try reflexivity.
+  destruct b; simpl; rewrite IH; reflexivity.
+Qed.
+
+Lemma md_list_len md n : md_ok md n -> length (md_list md n) = n.
+Proof. destruct md; simpl; [trivial|intros _; apply repeat_length]. Qed.
+
+Lemma vrecs_facts o :
+  wf o ->
+  length (vrecs o) = nobs o /\ map v_id (vrecs o) = oids o /\ map v_row (vrecs o) = mat o /\
+  map v_md (vrecs o) = md_list (omd o) (nobs o).
+Proof.
+  intros (W1 & W2 & W3 & W4 & W5 & W6). unfold vrecs, v_id, v_row, v_md, vrec.
+  assert (L1 : length (combine (oids o) (mat o)) = nobs o) by (rewrite combine_length, W1; unfold nobs; lia).
+  assert (L2 : length (md_list (omd o) (nobs o)) = nobs o) by (apply md_list_len; exact W5).
+  repeat split.
+  - rewrite combine_length, L1, L2. lia.
+  - rewrite <- (map_map fst fst). rewrite map_fst_combine by lia. apply map_fst_combine. unfold nobs in *; lia.
+  - rewrite <- (map_map fst snd). rewrite map_fst_combine by lia. apply map_snd_combine. unfold nobs in *; lia.
+  - apply map_snd_combine. lia.
+Qed.
+
+Lemma labels_of_length lab ids : lab_error lab = None -> length (labels_of lab ids) = length ids.
+Proof.
+  destruct lab; simpl; intros H; try discriminate; rewrite map_length; [apply seq_length|reflexivity|reflexivity].
+Qed.
+
+Lemma select_map_In {A} (f : Z -> bool) (ls : list Z) (xs : list A) x :
+  In x (select (map f ls) xs) <->
+  exists i l, nth_error xs i = Some x /\ nth_error ls i = Some l /\ f l = true.
+Proof.
+  revert xs. induction ls as [|l ls IH]; intros [|y xs]; simpl.
+  - split; [intros []|intros [[|i] [l [H _]]]; discriminate].
+  - split; [intros []|intros [[|i] [l [_ [H _]]]]; discriminate].
+  - split; [intros []|intros [[|i] [l' [H _]]]; discriminate].
+  - destruct (f l) eqn:F; simpl; rewrite IH; split.
+    + intros [H|[i [l' [H1 [H2 H3]]]]]; [exists 0, l; subst; repeat split; assumption|exists (S i), l'; repeat split; assumption].
+    + intros [[|i] [l' [H1 [H2 H3]]]]; simpl in *; [left; congruence|right; exists i, l'; repeat split; assumption].
+    + intros [i [l' [H1 [H2 H3]]]]. exists (S i), l'. repeat split; assumption.
+    + intros [[|i] [l' [H1 [H2 H3]]]]; simpl in *; [congruence|exists i, l'; repeat split; assumption].
+Qed.
+
+(* ---------------------------------------------------------------- one part (rows) *)
+Lemma part_rows_spec o mask :
+  wf o ->
+  let p := part_rows o (select mask (vrecs o)) in
+  oids p = select mask (oids o) /\ sids p = sids o /\ wf p /\ ttype p = ttype o /\
+  (forall x y, In x (oids p) -> cell p x y = cell o x y) /\
+  (forall x, In x (oids p) -> md_view Obs p x = md_view Obs o x) /\
+  (forall y, md_view Samp p y = md_view Samp o y).
+Proof.
+  intros W. destruct (vrecs_facts o W) as (V1 & V2 & V3 & V4).
+  pose proof W as (W1 & W2 & W3 & W4 & W5 & W6). cbv zeta. unfold part_rows.
+  rewrite !select_map, V2, V3, V4. cbn [oids sids mat omd smd ttype].
+  set (mdl := md_list (omd o) (nobs o)).
+  assert (Lm : length mdl = length (oids o)) by (unfold mdl; rewrite md_list_len by exact W5; reflexivity).
+  assert (Ls : length (select mask mdl) = length (select mask (oids o))) by (apply select_length_same; exact Lm).
+  split; [reflexivity|]. split; [reflexivity|]. split; [|split; [reflexivity|split; [|split]]].
+  - unfold wf, nobs, nsamp. cbn [oids sids mat omd smd]. repeat split.
+    + apply select_length_same. exact W1.
+    + apply (sel_rows_rect mask _ _ W2).
+    + apply select_NoDup. exact W3.
+    + exact W4.
+    + apply md_ok_ctor. cbn [md_ok]. exact Ls.
+    + apply md_ok_ctor. exact W6.
+  - intros x y Hx.
+    change (cell (filter_mask mask Obs o) x y = cell o x y).
+    destruct (In_dec Z.eq_dec y (sids o)) as [Hy|Hy].
+    + apply filter_mask_cell; [exact W|exact Hx|exact Hy].
+    + unfold cell. cbn [filter_mask oids sids mat]. apply pos_None in Hy. rewrite Hy.
+      destruct (pos x (select mask (oids o))); destruct (pos x (oids o)); reflexivity.
+  - intros x Hx. rewrite !md_view_entry. cbn [ids mds oids omd].
+    destruct (pos_In _ _ Hx) as [k Hk]. rewrite Hk.
+    destruct (select_pos mask (oids o) mdl md_none x k W3 Lm Hk) as [i [P [Q _]]]. rewrite P.
+    rewrite entry_view_ctor.
+    pose proof (pos_Some _ _ _ Hk) as [_ Hklt]. pose proof (pos_Some _ _ _ P) as [_ Hilt].
+    rewrite entry_view_Some_nth by (rewrite Ls; exact Hklt). rewrite Q.
+    apply entry_view_md_list; assumption.
+  - intros y. rewrite !md_view_entry. cbn [ids mds sids smd]. destruct (pos y (sids o)); [|reflexivity].
+    apply entry_view_ctor.
+Qed.
+
+(* ---------------------------------------------------------------- partition, any axis *)
+Lemma kept_iff ign l : kept ign l = true <-> (ign = true -> l <> NONE_LABEL).
+Proof.
+  unfold kept. destruct ign; simpl; [|split; [intros _ H; discriminate|reflexivity]].
+  rewrite negb_true_iff, Z.eqb_neq. split; [intros H _; exact H|intros H; apply H; reflexivity].
+Qed.
+
+Theorem partition_refuses t a lab ign re c :
+  partition_t t a lab ign re = RErr c <-> lab_error lab = Some c.
+Proof.
+  unfold partition_t. destruct (lab_error lab) as [c'|]; split; intros H; try discriminate; inversion H; reflexivity.
+Qed.
+
+Theorem partition_exact t a lab ign parts :
+  wf t -> partition_t t a lab ign false = ROk parts ->
+  let labels := labels_of lab (ids a t) in
+  length labels = length (ids a t) /\
+  NoDup (map fst parts) /\
+  (forall l, In l (map fst parts) <-> In l labels /\ (ign = true -> l <> NONE_LABEL)) /\
+  (forall l p, In (l, p) parts ->
+     ids a p = select (map (Z.eqb l) labels) (ids a t) /\ ids a p <> [] /\
+     ids (other a) p = ids (other a) t /\
+     (forall x y, In x (ids a p) -> cellx a p x y = cellx a t x y) /\
+     (forall x, In x (ids a p) -> md_view a p x = md_view a t x) /\
+     (forall y, md_view (other a) p y = md_view (other a) t y) /\
+     ttype p = ttype t /\ wf p).
+Proof.
+  intros W H. cbv zeta. unfold partition_t in H. destruct (lab_error lab) eqn:LE; [discriminate|].
+  inversion H as [Hp]; clear H.
+  set (o := orient a t) in *. assert (Wo : wf o) by (apply wf_orient; exact W).
+  destruct (vrecs_facts o Wo) as (V1 & _).
+  assert (Eo : oids o = ids a t) by apply oids_orient. rewrite Eo in *.
+  set (labels := labels_of lab (ids a t)) in *.
+  assert (Ll : length labels = length (ids a t)) by (apply labels_of_length; exact LE).
+  assert (Ll' : length labels = length (vrecs o)) by (rewrite V1, Ll, <- Eo; reflexivity).
+  destruct (groups_spec labels (vrecs o) ign Ll') as (G1 & G2 & G3). cbv zeta in *.
+  set (g := groups labels (vrecs o) ign) in *.
+  assert (Ek : map fst (map (fun g0 => (fst g0, orient a (part_rows o (snd g0)))) g) = gkeys g)
+    by (rewrite map_map; reflexivity).
+  split; [exact Ll|]. split; [rewrite Ek; exact G1|]. split.
+  - intros l. rewrite Ek, G2, kept_iff. tauto.
+  - intros l p Hin. apply in_map_iff in Hin. destruct Hin as [[l' b] [E Hg]]. simpl in E. inversion E; subst l' p. clear E.
+    destruct (G3 l b Hg) as (Eb & Hne & _).
+    pose proof (part_rows_spec o (map (Z.eqb l) labels) Wo) as P. cbv zeta in P. rewrite <- Eb in P.
+    destruct P as (P1 & P2 & P3 & P4 & P5 & P6 & P7).
+    rewrite ids_orient_back, ids_other_orient_back. rewrite Eo in P1.
+    split; [exact P1|]. split.
+    { unfold part_rows. cbn [oids]. destruct b; [contradiction|discriminate]. }
+    split; [rewrite P2; apply sids_orient|]. split; [|split; [|split; [|split]]].
+    + intros x y Hx. rewrite cellx_orient by exact P3. rewrite P5 by exact Hx. apply cell_orient. exact W.
+    + intros x Hx. rewrite md_view_orient_back. rewrite P6 by exact Hx. apply md_view_orient.
+    + intros y. rewrite md_view_orient_back_other, P7. apply md_view_orient_other.
+    + rewrite ttype_orient, P4. apply ttype_orient.
+    + apply wf_orient. exact P3.
+Qed.
+
+(* an id is in the part of label l iff l is its label: the parts are disjoint and cover *)
+Theorem partition_membership t a lab ign parts i x l p :
+  wf t -> partition_t t a lab ign false = ROk parts ->
+  nth_error (ids a t) i = Some x -> In (l, p) parts ->
+  (In x (ids a p) <-> nth_error (labels_of lab (ids a t)) i = Some l).
+Proof.
+  intros W H Hi Hp. destruct (partition_exact t a lab ign parts W H) as (Ll & _ & _ & P). cbv zeta in *.
+  destruct (P l p Hp) as (E & _). rewrite E, select_map_In. split.
+  - intros [j [l' [H1 [H2 H3]]]]. apply Z.eqb_eq in H3. subst l'.
+    assert (i = j); [|subst; exact H2].
+    assert (NoDup (ids a t)) as Hn by (destruct W as (_ & _ & W3 & W4 & _); destruct a; assumption).
+    eapply NoDup_nth_error; [exact Hn|apply nth_error_Some; congruence|congruence].
+  - intros H2. exists i, l. repeat split; [exact Hi|exact H2|apply Z.eqb_refl].
+Qed.
+
+Theorem partition_cover t a lab ign parts i x l :
+  wf t -> partition_t t a lab ign false = ROk parts ->
+  nth_error (ids a t) i = Some x -> nth_error (labels_of lab (ids a t)) i = Some l ->
+  (ign = true -> l <> NONE_LABEL) ->
+  exists p, In (l, p) parts /\ In x (ids a p).
+Proof.
+  intros W H Hi Hl Hk. destruct (partition_exact t a lab ign parts W H) as (_ & _ & K & _). cbv zeta in *.
+  assert (In l (map fst parts)) as Hin by (apply K; split; [eapply nth_error_In; exact Hl|exact Hk]).
+  apply in_map_iff in Hin. destruct Hin as [[l' p] [E Hp]]. simpl in E. subst l'.
+  exists p. split; [exact Hp|]. apply (partition_membership t a lab ign parts i x l p W H Hi Hp). exact Hl.
+Qed.
+
+Theorem partition_disjoint t a lab ign parts l1 p1 l2 p2 x :
+  wf t -> partition_t t a lab ign false = ROk parts ->
+  In (l1, p1) parts -> In (l2, p2) parts -> In x (ids a p1) -> In x (ids a p2) -> l1 = l2.
+Proof.
+  intros W H H1 H2 X1 X2.
+  destruct (partition_exact t a lab ign parts W H) as (_ & _ & _ & P). cbv zeta in *.
+  assert (In x (ids a t)) as Hx.
+  { destruct (P l1 p1 H1) as (E & _). rewrite E in X1. eapply select_In. exact X1. }
+  apply In_nth_error in Hx. destruct Hx as [i Hi].
+  apply (partition_membership t a lab ign parts i x l1 p1 W H Hi H1) in X1.
+  apply (partition_membership t a lab ign parts i x l2 p2 W H Hi H2) in X2. congruence.
+Qed.
+
+(* an ignored id (label None with ignore_none) is in no part *)
+Theorem partition_ignored t a lab parts i x p l :
+  wf t -> partition_t t a lab true false = ROk parts ->
+  nth_error (ids a t) i = Some x -> nth_error (labels_of lab (ids a t)) i = Some NONE_LABEL ->
+  In (l, p) parts -> ~ In x (ids a p).
+Proof.
+  intros W H Hi Hl Hp Hx.
+  apply (partition_membership t a lab true parts i x l p W H Hi Hp) in Hx.
+  assert (l = NONE_LABEL) by congruence. subst l.
+  destruct (partition_exact t a lab true parts W H) as (_ & _ & K & _). cbv zeta in *.
+  assert (In NONE_LABEL (map fst parts)) as Hin by (apply in_map_iff; exists (NONE_LABEL, p); split; [reflexivity|exact Hp]).
+  apply K in Hin. destruct Hin as [_ Hn]. apply Hn; reflexivity.
+Qed.
+
+(* remove_empty = True applies remove_empty (axis 'whole') of C08 to every part *)
+Theorem partition_remove_empty t a lab ign :
+  partition_t t a lab ign true =
+  match partition_t t a lab ign false with
+  | ROk parts => ROk (map (fun lp => (fst lp, remove_empty_whole (snd lp))) parts)
+  | RErr c => RErr c
+  end.
+Proof.
+  unfold partition_t. destruct (lab_error lab); [reflexivity|]. rewrite map_map. reflexivity.
+Qed.
